@@ -9,6 +9,7 @@ from ..common import build, call, exc_text
 from ..refmodel import ParsedPlot, write_plotfile
 from ..runner import Rec, h64
 
+PATHFORMS = False      # (this check spells its input paths itself)
 PROPERTY = "C17"
 LEVEL = "model_checking"
 RULE = ("case = synthetic PeleLMeX checkpoint (1..3 levels, anisotropic domains and cells, ghost width 1..3, independent "
